@@ -11,6 +11,9 @@ import ast
 import itertools
 
 
+LIST_MUTATORS = ("append", "extend", "clear")
+
+
 class Unsupported(Exception):
     pass
 
@@ -154,6 +157,8 @@ class Frontend:
                 if isinstance(n, ast.FunctionDef):
                     self.funcs.setdefault(n.name, n)
         self.inline_process = inline_process
+        self.iter_src = {}  # label of an iternext instruction -> variable whose (list) value it iterates
+        self.list_mut_vars = set()  # variables on which a list-mutating method is called (shared ones are racy locations)
         self.tmpc = itertools.count()
         self.main = Program("main")
         self.worker = None
@@ -363,6 +368,12 @@ class Frontend:
         mk.nxt = head.label
         src = self.tmp(ctx)
         mk.a = ("tmp", src)
+        if isinstance(s.iter, ast.Name):
+            r = ctx.env.lookup(s.iter.id)
+            if r[0] == "var":
+                # a list iterator stays attached to the list object: the model follows the variable (live iteration)
+                mk.a = ("tmp", src, r[1])
+                self.iter_src[head.label] = r[1]
         return self.expr_to(s.iter, ctx, ("tmpname", src), mk.label, line=s.lineno)
 
     def s_Return(self, s, ctx, k):
@@ -680,6 +691,21 @@ class Frontend:
             return ("cmp", ops[type(op)], l, r_)
         if isinstance(e, ast.BinOp) and isinstance(e.op, (ast.Add, ast.Sub)):
             return ("bin", "+" if isinstance(e.op, ast.Add) else "-", self._sub(e.left, ctx, pre, line), self._sub(e.right, ctx, pre, line))
+        if (isinstance(e, ast.BoolOp) and isinstance(e.op, ast.Or) and len(e.values) == 2
+                and isinstance(e.values[1], (ast.Tuple, ast.List)) and not e.values[1].elts):
+            # `x or ()` / `x or []`: value semantics -- x when it is truthy, else the empty sequence
+            t = self.tmp(ctx)
+
+            def f(kk, e=e, t=t):
+                keep = self.emit(ctx, "jump", None, None, line)
+                keep.nxt = kk
+                other = self.store(ctx, ("tmpname", t), ("emptylist",), kk, line)
+                br = self.emit(ctx, "branch", ("truth", ("tmp", t)), None, line)
+                br.nxt, br.alt = keep.label, other
+                return self.expr_to(e.values[0], ctx, ("tmpname", t), br.label, line=line)
+
+            pre.append(f)
+            return ("tmp", t)
         if isinstance(e, ast.BoolOp) or isinstance(e, ast.IfExp):
             # short-circuit value: compile through branches into a tmp
             t = self.tmp(ctx)
@@ -726,6 +752,8 @@ class Frontend:
 
             pre.append(f)
             return ("tmp", t)
+        if isinstance(e, ast.Tuple) and not e.elts:
+            return ("emptylist",)
         if isinstance(e, ast.Tuple):
             return ("tuple",) + tuple(self._sub(x, ctx, pre, line) for x in e.elts)
         if isinstance(e, ast.List) and not e.elts:
@@ -782,6 +810,8 @@ class Frontend:
                 if r[0] == "var":
                     self._note_use(ctx, r[1])
                     obj = ("objvar", r[1])
+                    if f.attr in LIST_MUTATORS:
+                        self.list_mut_vars.add(r[1])
                 else:
                     obj = ("glob", r[1])
             else:
